@@ -16,6 +16,7 @@ type G struct {
 	P      *Profile
 	depth  int
 	Media  []string // ids of media elements emitted, in order
+	sepN   int      // number of word-less separator blocks emitted so far
 }
 
 type wc struct {
@@ -39,6 +40,8 @@ type Profile struct {
 	HeadJunk      bool                           // script/style in head
 	Carriers      int                            // percentage chance of class A / class B carriers inside cells, captions, tweets
 	TablesInLists int                            // weight of data tables as the (only) content of list items and quotes
+	EscapedText   bool                           // pre blocks may hold escaped markup as visible text
+	EmptyCells    bool                           // data tables may hold empty cells and spacer rows
 	CommaURLs     bool                           // image URLs may hold commas (w_400,h_300 style path segments)
 }
 
@@ -125,11 +128,15 @@ func (g *G) url(kind string) string {
 	}
 	// a third of the references are path-relative, so that their resolution depends on the page's directory
 	rel := ""
-	switch g.intn(0, 5, "urlrel") {
+	switch g.intn(0, 6, "urlrel") {
 	case 4:
 		rel = "rel"
 	case 5:
 		rel = "../up"
+	case 6:
+		if kind == "a" {
+			return "?ref=" + g.tokp("l")
+		}
 	}
 	switch kind {
 	case "a":
@@ -232,6 +239,10 @@ func (g *G) inline(k int) string {
 			}
 			g.pop()
 			n = 0
+		case "escaped":
+			// visible text that looks like markup (escaped in the source)
+			parts = append(parts, g.pick("escform", "&lt;script&gt;"+g.words(n)+"&lt;/script&gt;", "&lt;b onmouseover=alert(1) id=x class=y style=z&gt;"+g.words(n)+"&lt;/b&gt;",
+				"&lt;style&gt;."+g.words(n)+"{}&lt;/style&gt;", "&lt;img src=x onerror=alert(1)&gt; "+g.words(n), "&amp;lt;i&amp;gt;"+g.words(n)))
 		case "script":
 			parts = append(parts, strings.TrimSpace(g.script()))
 			n = 0
@@ -350,10 +361,25 @@ func (g *G) quote() string {
 func (g *G) pre() string {
 	n := g.intn(1, 4, "prel")
 	var lines []string
+	form := g.pick("preform", "plain", "plain", "code", "div-lines", "span-lines")
 	for i := 0; i < n; i++ {
-		lines = append(lines, g.words(g.intn(1, 12, "prew")))
+		w := g.words(g.intn(1, 12, "prew"))
+		if g.P.EscapedText && g.intn(0, 3, "preesc") == 0 {
+			w = "&lt;script&gt;" + w + "&lt;/script&gt; &lt;p id=a onclick=b&gt;"
+		}
+		switch form {
+		case "div-lines":
+			w = `<div class="line">` + w + "</div>"
+		case "span-lines":
+			w = "<span>" + w + "</span>"
+		}
+		lines = append(lines, w)
 	}
-	return "<pre" + g.at("pre") + ">" + strings.Join(lines, "\n") + "</pre>\n"
+	body := strings.Join(lines, "\n")
+	if form == "code" {
+		body = "<code>" + body + "</code>"
+	}
+	return "<pre" + g.at("pre") + ">" + body + "</pre>\n"
 }
 
 func (g *G) container() string {
@@ -373,12 +399,21 @@ func (g *G) dataTable() string {
 	}
 	b.WriteString("<tr" + g.at("tr") + ">")
 	for c := 0; c < cols; c++ {
+		if c > 0 && g.P.EmptyCells && g.intn(0, 7, "emptyth") == 0 {
+			b.WriteString("<th" + g.at("th") + "></th>") // empty corner / header cell (never the first: it identifies the table)
+			continue
+		}
 		b.WriteString("<th" + g.at("th") + ">" + g.words(g.intn(1, 3, "thw")) + "</th>")
 	}
 	b.WriteString("</tr>\n")
 	for r := 0; r < rows; r++ {
 		b.WriteString("<tr" + g.at("tr") + ">")
+		spacer := g.P.EmptyCells && g.intn(0, 9, "spacer") == 0
 		for c := 0; c < cols; c++ {
+			if spacer || (g.P.EmptyCells && g.intn(0, 7, "emptycell") == 0) {
+				b.WriteString("<td" + g.at("td") + "></td>")
+				continue
+			}
 			b.WriteString("<td" + g.at("td") + ">" + g.cell() + "</td>")
 		}
 		b.WriteString("</tr>\n")
@@ -769,6 +804,34 @@ func (g *G) block(kind string) string {
 			return "<article>" + inner + "</article>\n"
 		}
 		return "<" + tag + ">" + inner + "</" + tag + ">\n"
+	case "separator":
+		// a text block without any word: k asterisks (k identifies it), possibly inside an aside
+		g.sepN++
+		sep := strings.Repeat("*", 2+g.sepN) + g.pick("septail", "", "~", "|", "•") // unique per page by its length
+		switch g.pick("sepwrap", "div", "p", "aside", "nav", "hr-like") {
+		case "aside":
+			return "<aside><p>" + sep + "</p></aside>\n"
+		case "nav":
+			return "<nav>" + sep + "</nav>\n"
+		case "hr-like":
+			return "<div><span>" + sep + "</span></div>\n"
+		case "p":
+			return "<p>" + sep + "</p>\n"
+		}
+		return "<div>" + sep + "</div>\n"
+	case "hangul":
+		// Hangul-only words next to tokens (the letter word counter counts them, the fast one does not)
+		hw := []string{"한국어", "문장", "텍스트", "단어", "기사", "내용", "페이지", "제목"}
+		var ws []string
+		n := g.intn(20, 70, "hgw")
+		for i := 0; i < n; i++ {
+			if i%3 == 0 {
+				ws = append(ws, g.tok())
+			} else {
+				ws = append(ws, hw[(g.n+i)%len(hw)])
+			}
+		}
+		return "<p>" + strings.Join(ws, " ") + "</p>\n"
 	case "inlineimg":
 		return "<p>" + g.inline(g.plen()) + " " + strings.TrimSpace(g.img()) + " " + g.inline(g.plen()) + "</p>\n"
 	}
@@ -876,7 +939,12 @@ func genPageURL(t *rapid.T) string {
 	for i := 0; i < dirs; i++ {
 		p += "/" + rapid.SampledFrom([]string{"a", "blog", "2021", "sec", "x-y"}).Draw(t, "dir")
 	}
-	switch rapid.IntRange(0, 3).Draw(t, "tail") {
+	switch rapid.IntRange(0, 4).Draw(t, "tail") {
+	case 4:
+		if dirs == 0 {
+			return scheme + "://" + host // no path at all
+		}
+		p += "/"
 	case 0:
 		p += "/"
 	case 1:
